@@ -67,6 +67,44 @@ def config_for(name, **over):
     return getattr(pv, cname)(**d)
 
 
+_PARAM_CACHE = {}
+BASE_KEYS = ("population_size", "fitness_error", "max_cycles", "early_stopping")
+
+
+def param_variants(name):
+    """algorithm-specific parameter values around the documented ones that the configuration class's own validators accept:
+    list of (key, value). Candidates: halves/doubles/±1 of the documented value and a grid of common probabilities."""
+    if name in _PARAM_CACHE:
+        return _PARAM_CACHE[name]
+    cname, d = CFGS[name]
+    cls = getattr(pv, cname)
+    out = []
+    for k, v in d.items():
+        if k in BASE_KEYS or isinstance(v, bool) or v is None:
+            continue
+        cands = []
+        if isinstance(v, int):
+            cands = [v - 1, v + 1, 2 * v, max(1, v // 2), 1, 2, 3]
+        elif isinstance(v, float):
+            cands = [v / 2, v * 0.9, v * 1.5, v * 2, 0.05, 0.1, 0.25, 0.35, 0.45, 0.5, 0.7, 0.9, 1.0, 1.5, 2.0]
+        elif isinstance(v, list) and v and all(isinstance(x, (int, float)) and not isinstance(x, bool) for x in v):
+            cands = [[x * 0.5 for x in v], [x * 2 for x in v]]
+            if all(isinstance(x, int) for x in v):
+                cands = [[max(1, x // 2) for x in v], [x * 2 for x in v]]
+        for c in cands:
+            if c == v:
+                continue
+            dd = copy.deepcopy(d)
+            dd[k] = c
+            try:
+                cls(**dd)
+                out.append((k, c))
+            except Exception:  # rejected by the validators: not a valid configuration
+                pass
+    _PARAM_CACHE[name] = out
+    return out
+
+
 def make(name, **over):
     return OPTS[name](config_for(name, **over))
 
